@@ -125,10 +125,10 @@ def rule_shrink(ctx: Ctx, repo: Repo, tier: str) -> None:
                                     "an observed type does not reach the merged type", scenario=lab)
                         break
                 else:
-                    ctx.ok("R-C04.3", w, f"every input is covered: {lab}")
+                    ctx.ok("R-C04.3", w, "every observed type is covered by the merged type", scenario=lab)
                 if m == 2:
                     keys.add(repr(multiset_key(res)))
-        ctx.check(len(keys) <= 1, "R-C04.4", w, f"result independent of input order for {_types(types)}",
+        ctx.check(len(keys) <= 1, "R-C04.4", w, "the merged type does not depend on the order of the observed types",
                   construct=f"{_types(types)}: {len(keys)} different results over {len(perms)} orders")
     ctx.floor("R-C04.3", "shrink_types scenarios", n_runs, 400)
 
